@@ -8,6 +8,7 @@ package mc
 import (
 	"fmt"
 	"net"
+	"strings"
 	"testing"
 	"time"
 
@@ -447,9 +448,20 @@ func c19RunRelay(t *testing.T, c c19Relay) (sig, msg string) {
 		req := &ml.VIndirectPingReq{SeqNo: R, Target: ip4(2), Port: 7946, Node: "x", Nack: c.Nack, SourceAddr: ip4(50), SourcePort: 7946, SourceNode: "q"}
 		buf, _ := ml.VEncode(ml.VIndirectPingMsg, req, false)
 		o.T.TakeSent()
-		var refused []sentPkt
+		var refused, refusedReply []sentPkt
 		if c.SendErr != "" {
 			o.T.FailSend = func(p sentPkt) error {
+				if strings.HasPrefix(c.SendErr, "reply-") {
+					// the relay's answer to the requester is what the transport refuses
+					if p.To != "10.0.0.50:7946" {
+						return nil
+					}
+					refusedReply = append(refusedReply, p)
+					if c.SendErr == "reply-remote" {
+						return &net.OpError{Op: "write", Net: "udp", Err: fmt.Errorf("connection refused")}
+					}
+					return fmt.Errorf("sendto: no buffer space available")
+				}
 				if p.To != "10.0.0.2:7946" {
 					return nil
 				}
@@ -532,7 +544,7 @@ func c19RunRelay(t *testing.T, c c19Relay) (sig, msg string) {
 		time.Sleep(2 * c19PI)
 		settle()
 		acks, nacks := 0, 0
-		for _, p := range o.T.TakeSent() {
+		for _, p := range append(o.T.TakeSent(), refusedReply...) {
 			leaves, _ := explode(p.Buf)
 			for _, l := range leaves {
 				switch l[0] {
@@ -567,6 +579,52 @@ func c19RunRelay(t *testing.T, c c19Relay) (sig, msg string) {
 		}
 		if nacks != wantNacks {
 			sig, msg = "relay-nack-count", fmt.Sprintf("%v: sent %d nacks, reference %d", c, nacks, wantNacks)
+			return
+		}
+		// a second request for the same target, answered at once: the first episode must have left nothing behind
+		o.T.FailSend = nil
+		const R2 = 8888
+		req.SeqNo = R2
+		buf2, _ := ml.VEncode(ml.VIndirectPingMsg, req, false)
+		o.T.Deliver(buf2, simAddr("10.0.0.50:7946"))
+		settle()
+		var L2 uint32
+		for _, p := range o.T.TakeSent() {
+			leaves, _ := explode(p.Buf)
+			for _, l := range leaves {
+				var pg ml.VPing
+				if l[0] == ml.VPingMsg && ml.VDecode(l[1:], &pg) == nil && p.To == "10.0.0.2:7946" {
+					L2 = pg.SeqNo
+				}
+			}
+		}
+		if L2 == 0 || L2 == L || L2 == R2 {
+			sig, msg = "relay-second-request-number", fmt.Sprintf("%v: second request pinged the target with number %d (first %d, requester's %d)", c, L2, L, R2)
+			return
+		}
+		time.Sleep(time.Millisecond)
+		o.T.Deliver(ack(L2), simAddr("10.0.0.2:7946"))
+		settle()
+		time.Sleep(c19PT + 2*c19PI)
+		settle()
+		a2, n2 := 0, 0
+		for _, p := range o.T.TakeSent() {
+			leaves, _ := explode(p.Buf)
+			for _, l := range leaves {
+				var a ml.VAckResp
+				if l[0] == ml.VAckRespMsg && ml.VDecode(l[1:], &a) == nil && a.SeqNo == R2 && p.To == "10.0.0.50:7946" {
+					a2++
+				} else if l[0] == ml.VAckRespMsg || l[0] == ml.VNackRespMsg {
+					n2++
+				}
+			}
+		}
+		if a2 != 1 || n2 != 0 {
+			sig, msg = "relay-second-request", fmt.Sprintf("%v: the second request got %d relayed acks under its number and %d other replies", c, a2, n2)
+			return
+		}
+		if n := o.M.VSnapshot().AckHandlers; n != 0 {
+			sig, msg = "pending-probe-record-leaked", fmt.Sprintf("%v: %d pending records after the second request", c, n)
 		}
 	})
 	if res.Panic != nil {
@@ -883,6 +941,10 @@ func TestC19(t *testing.T) {
 		relays = append(relays, relayCell{nk, "never", "local", 0}, relayCell{nk, "never", "remote", 0})
 		// ... and an ack carrying the relay's fresh number arrives all the same (a guessable counter)
 		relays = append(relays, relayCell{nk, "ack@1", "local", 0}, relayCell{nk, "twice", "remote", 3})
+		// the relay's transport refuses its answer to the requester (relayed ack or nack)
+		for _, tg := range []string{"never", "ack@1", "twice", "ack@pt+"} {
+			relays = append(relays, relayCell{nk, tg, "reply-local", 0}, relayCell{nk, tg, "reply-remote", 3})
+		}
 	}
 	for _, rc := range relays {
 		{
